@@ -3,8 +3,8 @@ import McpModel.Wire.Msg
 # C19 / C02 — message codec theorems (`encodeMsg`, `decodeMsg`, ids, `toWireError`)
 All statements are over ALL messages / JSON values; nothing is bounded.
 -/
-namespace Wire
-open Generated.Wire
+namespace Wire.L
+open Wire Generated.Wire
 
 /-- **decode_encode_msg** (C19). Every well-formed message — any id (string incl. empty, any int64),
 any params/result value, any error with data — decodes from its own encoding to itself. -/
@@ -192,11 +192,6 @@ theorem wire_error_wrap (e : GoErr) :
     simp only [toWireError, GoErr.firstWire]
     exact ⟨trivial, trivial, rfl⟩
 
-/-- A linear chain `fmt.Errorf("m₁: %w", fmt.Errorf("m₂: %w", … wireErr))`. -/
-def chain : List Bytes → WErr → GoErr
-  | [], w => .wire w
-  | m :: ms, w => .other m [chain ms w]
-
 theorem firstWire_chain (ms : List Bytes) (w : WErr) : (chain ms w).firstWire = some w := by
   induction ms with
   | nil => simp [chain, GoErr.firstWire]
@@ -219,11 +214,6 @@ theorem lookup_insert_ne (k k' : Bytes) (v : JVal) (a b : List (Bytes × JVal)) 
   induction a with
   | nil => simp only [List.nil_append, lookup, if_neg h]; cases lookup k b <;> rfl
   | cons p a ih => obtain ⟨pk, pv⟩ := p; simp [lookup, ih]
-
-/-- The six member names `DecodeMessage` looks at. -/
-def wireNames : List Bytes :=
-  [wireDecode_VersionTag_name, wireDecode_ID_name, wireDecode_Method_name, wireDecode_Params_name,
-   wireDecode_Result_name, wireDecode_Error_name]
 
 /-- **decode_case_sensitive** (C19). A member whose name is not EXACTLY one of the six wire names —
 in particular any name that differs from one of them only in case — has no influence on decoding,
@@ -268,4 +258,4 @@ theorem response_needs_id (kvs : List (Bytes × JVal))
   simp only [decodeMsg, hv, hm, hi, hw, asString, asRaw]
   simp
 
-end Wire
+end Wire.L
